@@ -111,6 +111,7 @@ static int poll_packets(int done) {
     return got;
 }
 static int recon_eos = 0;
+static int suffix = 0; static int keypk[4096]; static int nkeypk = 0; static int pk_first_dec[100000];
 static uint8_t *sent_copy[4096];   /* visible samples of every submitted 8-bit picture, planar W*H + 2*(W/2*H/2) */
 static void poll_recon(void) {
     if (!recon) return;
@@ -146,6 +147,7 @@ int main(int argc, char **argv) {
         else if (!strcmp(k, "pace")) pace = atoi(v); else if (!strcmp(k, "pseed")) pseed = atoi(v); else if (!strcmp(k, "recon")) recon = atoi(v);
         else if (!strcmp(k, "stat")) stat = atoi(v); else if (!strcmp(k, "decode")) decode = atoi(v); else if (!strcmp(k, "dec_threads")) dec_threads = atoi(v);
         else if (!strcmp(k, "dec16")) dec16 = atoi(v); else if (!strcmp(k, "eos_mode")) eos_mode = atoi(v); else if (!strcmp(k, "teardown_after")) teardown_after = atoi(v);
+        else if (!strcmp(k, "suffix")) suffix = atoi(v);
         else if (!strcmp(k, "dumprecon")) dumprecon = atoi(v); else if (!strcmp(k, "dumpdec")) dumpdec = atoi(v);
         else if (!strcmp(k, "cpu")) { cpu = strtoull(v, NULL, 16); have_cpu = 1; }
         else if (k[0] == 'f' && k[1] >= '0' && k[1] <= '9') { fidx[nf] = atoi(k + 1); fval[nf] = (long long)strtoull(v, NULL, 10); nf++; }
@@ -272,6 +274,7 @@ int main(int argc, char **argv) {
                             sq->filter_intra_level, sq->enable_intra_edge_filter, sq->enable_interintra_compound, sq->enable_masked_compound, sq->enable_warped_motion, sq->enable_dual_filter,
                             sq->order_hint_info.enable_order_hint, sq->order_hint_info.order_hint_bits, sq->order_hint_info.enable_jnt_comp, sq->order_hint_info.enable_ref_frame_mvs,
                             sq->enable_superres, sq->cdef_level, sq->enable_restoration, sq->sb_size == BLOCK_128X128, sq->film_grain_params_present, sq->seq_force_screen_content_tools, sq->still_picture);
+                    if (fh->show_existing_frame == 0 && fh->frame_type == KEY_FRAME && fh->show_frame && k > 0 && nkeypk < 4096 && (nkeypk == 0 || keypk[nkeypk - 1] != k)) keypk[nkeypk++] = k;
                     fprintf(H, " refidx=");
                     for (int r = 0; r < 7; r++) fprintf(H, "%s%u", r ? "," : "", fh->ref_frame_idx[r]);
                     fprintf(H, "\n");
@@ -282,6 +285,7 @@ int main(int argc, char **argv) {
                     for (int y = 0; y < Hh / 2; y++) hh = fnv(io.cb + (size_t)y * io.cb_stride * bps, (size_t)(W / 2) * bps, hh);
                     for (int y = 0; y < Hh / 2; y++) hh = fnv(io.cr + (size_t)y * io.cr_stride * bps, (size_t)(W / 2) * bps, hh);
                     fprintf(H, "DEC %d %d %d %016llx %d\n", ndec, W, Hh, hh, k);
+                    if (k < 100000 && !pk_first_dec[k]) pk_first_dec[k] = ndec + 1;
                     if (dumpdec) { snprintf(fn, sizeof fn, "%s.dec.%d.yuv", outp, ndec); FILE *f = fopen(fn, "wb");
                         for (int y = 0; y < Hh; y++) fwrite(io.luma + (size_t)y * io.y_stride * bps, 1, (size_t)W * bps, f);
                         for (int y = 0; y < Hh / 2; y++) fwrite(io.cb + (size_t)y * io.cb_stride * bps, 1, (size_t)(W / 2) * bps, f);
@@ -292,7 +296,29 @@ int main(int argc, char **argv) {
               }
             }
             e = svt_av1_dec_deinit(dec); fprintf(H, "CALL dec_deinit %x\n", (unsigned)e);
+            /* random access: decode again starting at every packet that carries a shown key frame */
+            for (int s = 0; suffix && s < nkeypk; s++) {
+                EbComponentType *d2 = NULL; EbSvtAv1DecConfiguration dc2 = dc;
+                svt_av1_dec_deinit_handle(dec); dec = NULL;
+                if (svt_av1_dec_init_handle(&d2, NULL, &dc2) != EB_ErrorNone) break;
+                dc2 = dc; svt_av1_dec_set_parameter(d2, &dc2);
+                if (svt_av1_dec_init(d2) != EB_ErrorNone) { svt_av1_dec_deinit_handle(d2); break; }
+                int idx = 0;
+                for (int k = keypk[s]; k < npkt; k++) {
+                    e = svt_av1_dec_frame(d2, allpk + pk_off[k], pk_len[k], 0);
+                    if (e != EB_ErrorNone) fprintf(H, "CALL dec_frame_suffix %x\n", (unsigned)e);
+                    if (svt_av1_dec_get_picture(d2, &rb, &si, &fi) != EB_DecNoOutputPicture) {
+                        unsigned long long hh = FNV0;
+                        for (int y = 0; y < Hh; y++) hh = fnv(io.luma + (size_t)y * io.y_stride * bps, (size_t)W * bps, hh);
+                        for (int y = 0; y < Hh / 2; y++) hh = fnv(io.cb + (size_t)y * io.cb_stride * bps, (size_t)(W / 2) * bps, hh);
+                        for (int y = 0; y < Hh / 2; y++) hh = fnv(io.cr + (size_t)y * io.cr_stride * bps, (size_t)(W / 2) * bps, hh);
+                        fprintf(H, "DECS %d %d %016llx %d\n", keypk[s], idx++, hh, k);
+                    }
+                }
+                svt_av1_dec_deinit(d2); svt_av1_dec_deinit_handle(d2);
+            }
         }
+        if (dec)
         e = svt_av1_dec_deinit_handle(dec); fprintf(H, "CALL dec_deinit_handle %x\n", (unsigned)e);
     }
     fprintf(H, "END ok sent=%d packets=%d recon=%d decoded=%d\n", N, npkt, nrec, ndec);
